@@ -104,6 +104,8 @@ func c06(c *Ctx) {
 	// the per-interface cap the pool enforces is the running instance type's (shared rules)
 	c19R3(c)
 	c19R6(c)
+	// shared: no factory error is discarded — a refused delete does not free the slot (C07.R4)
+	c07R4(c)
 }
 
 // R1: cap check counts in-flight requests, in normal form, before every enqueue.
